@@ -934,15 +934,16 @@ public:
       // Make sure that the user hasn't previously registered this function...
       // If they have, we would returning 2 owning types (sandbox_callback) to
       // the same callback which would be bad
-      {
-        std::lock_guard<std::mutex> lock(callback_lock);
-        bool exists =
-          std::find(callback_keys.begin(), callback_keys.end(), unique_key) !=
-          callback_keys.end();
-        detail::dynamic_check(
-          !exists, "You have previously already registered this callback.");
-        callback_keys.push_back(unique_key);
-      }
+      // The key is recorded only once the backend has accepted the
+      // registration (the lock is held until then): a registration the backend
+      // refuses, e.g. for want of a free entry point, must leave no key behind,
+      // or the function could never be registered afterwards
+      std::lock_guard<std::mutex> lock(callback_lock);
+      bool exists =
+        std::find(callback_keys.begin(), callback_keys.end(), unique_key) !=
+        callback_keys.end();
+      detail::dynamic_check(
+        !exists, "You have previously already registered this callback.");
 
       auto callback_interceptor =
         sandbox_callback_interceptor<detail::rlbox_remove_wrapper_t<T_Ret>,
@@ -955,6 +956,8 @@ public:
         detail::convert_to_sandbox_equivalent_t<
           detail::rlbox_remove_wrapper_t<T_Args>,
           T_Sbx>...>(unique_key, reinterpret_cast<void*>(callback_interceptor));
+
+      callback_keys.push_back(unique_key);
 
       auto tainted_func_ptr = reinterpret_cast<
         detail::rlbox_tainted_opaque_to_tainted_t<T_Ret, T_Sbx> (*)(
